@@ -459,7 +459,7 @@ func (e *Exec) frameCheckCond(st *State, arr string, ref *Term, cond *Term) {
 	c := e.c
 	ok := []*Term{c.Gt(ref, e.entryTop)}
 	// sub-objects of fresh objects are fresh too
-	if s := strip(ref); s.kind == kApp && (s.op == "sub" || s.op == "elem") {
+	for s := strip(ref); s.kind == kApp && (s.op == "sub" || s.op == "elem"); s = strip(s.args[0]) {
 		ok = append(ok, c.Gt(s.args[0], e.entryTop))
 	}
 	for _, l := range e.frameLocs {
@@ -565,7 +565,12 @@ func (e *Exec) evalClauseAt(fr *Frame, cl Clause, st *State, results []Val) *Ter
 			}
 			v := e.load(st, av, deref(a.Type()))
 			args = append(args, v)
-			oldArgs = append(oldArgs, v)
+			ov := v
+			if fr.oldOverride != nil && (isStructT(deref(a.Type())) || isArrayT(deref(a.Type()))) {
+				// aggregate locals are memory: old() reads them from the snapshot
+				ov = e.load(fr.oldOverride, av, deref(a.Type()))
+			}
+			oldArgs = append(oldArgs, ov)
 		}
 	}
 	// candidate witnesses for existentials: current values of the function's integer locals
@@ -574,7 +579,12 @@ func (e *Exec) evalClauseAt(fr *Frame, cl Clause, st *State, results []Val) *Ter
 	oldSt := fr.entry
 	if fr.oldOverride != nil {
 		oldSt = fr.oldOverride
-		oldArgs = args // locals and parameters keep their current values; only the heap is the old one
+		// scalar locals and parameters keep their current values; the heap and aggregate locals are the old ones
+		for i, p := range cl.Params {
+			if p.Kind != pkLocal {
+				oldArgs[i] = args[i]
+			}
+		}
 	}
 	v := e.evalPure(cl.Wrapper, args, oldArgs, nil, st, oldSt)
 	e.witness = savedW
@@ -597,6 +607,13 @@ func (e *Exec) witnessFor(fr *Frame, st *State) []*Term {
 		if t, ok := st.cells[av.P.cell]; ok && !t.bound && !seen[t.id] && t.kind != kLit {
 			seen[t.id] = true
 			ws = append(ws, t)
+			if a.Comment == "rangeindex" {
+				// the hidden index of a range loop is advanced at the top of the body
+				if n := e.c.Add(t, e.c.Int(1)); !seen[n.id] {
+					seen[n.id] = true
+					ws = append(ws, n)
+				}
+			}
 		}
 	}
 	sort.Slice(ws, func(i, j int) bool { return ws[i].id < ws[j].id })
@@ -777,7 +794,10 @@ func (e *Exec) intrinsic(fr *Frame, st *State, ins ssa.Instruction, callee *ssa.
 					parts = append(parts, c.Implies(c.And(c.Le(lo, w), c.Lt(w, hi)), b))
 				}
 				e.noWitness--
-				return Val{T: c.And(parts...)}
+				if len(parts) == 1 {
+					return Val{T: fa}
+				}
+				return Val{T: c.App("hint.and", "Bool", parts...)}
 			}
 			return Val{T: fa}
 		}
@@ -795,7 +815,10 @@ func (e *Exec) intrinsic(fr *Frame, st *State, ins ssa.Instruction, callee *ssa.
 				alts = append(alts, c.And(c.Le(lo, w), c.Lt(w, hi), b))
 			}
 			e.noWitness--
-			return Val{T: c.Or(alts...)}
+			if len(alts) == 1 {
+				return Val{T: ex}
+			}
+			return Val{T: c.App("hint.or", "Bool", alts...)}
 		}
 		return Val{T: ex}
 	}
